@@ -128,6 +128,39 @@ fn set_pool_toggles(w: &mut World, pw: &PoolWorld, t: (bool, bool, bool)) -> TxR
     }
 }
 
+/// the switches together with every other optional field (current fees, current collector, a valid 2x ramp)
+fn set_pool_toggles_combined(w: &mut World, pw: &PoolWorld, t: (bool, bool, bool)) -> TxResult {
+    if let Some(tr) = &pw.trio {
+        let height = w.height();
+        w.exec(
+            OWNER,
+            &pw.hub.factory,
+            &white_whale_std::pool_network::factory::ExecuteMsg::UpdateTrioConfig {
+                trio_addr: tr.addr.clone(),
+                owner: None,
+                fee_collector_addr: Some(pw.hub.collector.clone()),
+                pool_fees: Some(FEES.trio()),
+                feature_toggle: Some(white_whale_std::pool_network::trio::FeatureToggle { withdrawals_enabled: t.0, deposits_enabled: t.1, swaps_enabled: t.2 }),
+                amp_factor: Some(white_whale_std::pool_network::trio::RampAmp { future_a: 200, future_block: height + 200_000 }),
+            },
+            &[],
+        )
+    } else {
+        w.exec(
+            OWNER,
+            &pw.hub.factory,
+            &white_whale_std::pool_network::factory::ExecuteMsg::UpdatePairConfig {
+                pair_addr: pw.p1.as_ref().unwrap().addr.clone(),
+                owner: None,
+                fee_collector_addr: Some(pw.hub.collector.clone()),
+                pool_fees: Some(FEES.pool()),
+                feature_toggle: Some(white_whale_std::pool_network::pair::FeatureToggle { withdrawals_enabled: t.0, deposits_enabled: t.1, swaps_enabled: t.2 }),
+            },
+            &[],
+        )
+    }
+}
+
 /// entry paths: (name, operation)
 fn pool_paths(pw: &PoolWorld) -> Vec<(&'static str, Op)> {
     if pw.trio.is_some() {
@@ -291,6 +324,38 @@ fn check_pool(pw: &PoolWorld, cx: &mut Cx, cases: &mut Vec<Value>) {
                     format!("{} pool (liquidity {}) toggles {:?}: {} ok={} but control ok={}; deltas differ: {}", pw.kind, pw.liquidity, t, p, r.is_ok(), control[pi].0, deltas != control[pi].1)
                 });
             }
+        }
+    }
+    // the same switches sent together with every other optional field of the update (fees, collector address and,
+    // for the three-asset pool, a valid amp ramp): the switches must be stored and enforced all the same
+    for t in toggles_all() {
+        w.restore(&pw.snap);
+        w.advance(0, 1);
+        let r = set_pool_toggles_combined(&mut w, pw, t);
+        cx.check("combined_update.accepted", r.is_ok(), || format!("{} pool: update carrying switches {:?} together with fees/collector/ramp was rejected: {:?}", pw.kind, t, r.as_ref().err().map(|e| e.msg().to_string())));
+        let stored = if let Some(tr) = &pw.trio {
+            let c: white_whale_std::pool_network::trio::Config = w.query(&tr.addr, &white_whale_std::pool_network::trio::QueryMsg::Config {}).unwrap();
+            (c.feature_toggle.withdrawals_enabled, c.feature_toggle.deposits_enabled, c.feature_toggle.swaps_enabled)
+        } else {
+            let c: white_whale_std::pool_network::pair::Config = w.query(&pw.p1.as_ref().unwrap().addr, &white_whale_std::pool_network::pair::QueryMsg::Config {}).unwrap();
+            (c.feature_toggle.withdrawals_enabled, c.feature_toggle.deposits_enabled, c.feature_toggle.swaps_enabled)
+        };
+        cx.count("case:combined_update");
+        cases.push(json!({"pool": pw.kind, "liquidity": pw.liquidity, "toggles(w,d,s)": [t.0, t.1, t.2], "path": "combined update (switches + fees + collector + ramp)", "ok": r.is_ok()}));
+        cx.check("combined_update.stores_the_switches", stored == t, || format!("{} pool: update with switches {:?} plus other fields stored {:?}", pw.kind, t, stored));
+        let toggled = w.snapshot();
+        for (p, op) in paths.iter() {
+            let enabled = match op {
+                Op::Withdraw => t.0,
+                Op::Deposit => t.1,
+                Op::Swap => t.2,
+            };
+            if enabled {
+                continue;
+            }
+            w.restore(&toggled);
+            let r = exec_pool_path(&mut w, pw, p);
+            cx.check("disabled.every_entry_path_rejected", r.is_err(), || format!("{} pool (liquidity {}) switches {:?} set in a combined update: {} succeeded although its operation is disabled", pw.kind, pw.liquidity, t, p));
         }
     }
     // disable everything, then re-enable: configuration and behaviour are restored
